@@ -195,6 +195,7 @@ class Scratch:
         shutil.rmtree(self.root, ignore_errors=True)
 
 
+QUICK_CAP_S = int(os.environ.get("JV_QUICK_CAP_S", "780"))
 MEM_BUDGET_GB = int(os.environ.get("JV_MEM_BUDGET_GB", "54"))
 
 
@@ -609,10 +610,32 @@ def main():
         for ob, r, unmatched, path in violations:
             print("  failed check: %s @ %s" % (unmatched[0]["desc"][:160], unmatched[0]["loc"]))
             print("VIOLATION property=%s replay=%s" % (prop, path))
+        # every passing harness is also executed as ordinary code (env/kani_native) with a few seeded value draws:
+        # concrete executions of the real code that must agree with the solver's verdict
+        native_ok = {}
+        if not args.no_evidence and not args.only and not args.replay and not violations:
+            exe = native_exe(scratch, logdir)
+            if exe:
+                for ob in obs:
+                    if results[ob["name"]]["verdict"] != "pass" or ob.get("native", "yes") == "no" or ob.get("profile", "model") != "model":
+                        continue
+                    allow = [a for a in ob.get("allow", "").split("|") if a]
+                    ok = 0
+                    for sd in range(seed * 1000, seed * 1000 + 12):
+                        kind, values, msg = native_run(exe, ob["name"], sd, timeout=30)
+                        if kind == "pass" or (kind == "fail" and any(a in msg for a in allow)):
+                            ok += 1
+                        elif kind == "fail":
+                            inconclusive.append((ob, results[ob["name"]], "native execution disagrees with the solver (seed %d): %s" % (sd, msg[:120])))
+                            break
+                    native_ok[ob["name"]] = ok
+        for ob, r, why in inconclusive:
+            if why.startswith("native execution disagrees"):
+                print("INCONCLUSIVE property=%s harness=%s reason=%s" % (prop, ob["name"], why))
         wall = time.time() - t0
         if not args.no_evidence and not args.only and not args.replay:
             write_evidence(prop, tier, seed, obs, results, scratch.report, wall, violations, known_hits, inconclusive,
-                           [(e, extra_results[e[0]]) for e in extras])
+                           [(e, extra_results[e[0]]) for e in extras], native_ok)
         if violations:
             return 1
         if inconclusive:
@@ -626,7 +649,8 @@ def main():
             print("scratch kept at", scratch.root)
 
 
-def write_evidence(prop, tier, seed, obs, results, genrep, wall, violations, known_hits, inconclusive, extras=()):
+def write_evidence(prop, tier, seed, obs, results, genrep, wall, violations, known_hits, inconclusive, extras=(), native_ok=None):
+    native_ok = native_ok or {}
     passed = [o for o in obs if results[o["name"]]["verdict"] == "pass"]
     checks = sum(results[o["name"]]["checks"] or 0 for o in obs)
     covers = sum(results[o["name"]]["covers_sat"] or 0 for o in obs)
@@ -640,6 +664,7 @@ def write_evidence(prop, tier, seed, obs, results, genrep, wall, violations, kno
             "cover_witnesses": "%d/%d" % (r["covers_sat"], r["covers_total"]),
             "program_steps": r["steps"], "vccs": r["vccs"], "vccs_after_simplification": r["vccs_remaining"],
             "symex_s": r["symex_s"], "solver_s": r["solver_s"],
+            "native_runs_agreeing": native_ok.get(o["name"]),
         })
     n_extra_ok = 0
     for (name, argv, _, fns_e, bound), r in extras:
@@ -656,6 +681,14 @@ def write_evidence(prop, tier, seed, obs, results, genrep, wall, violations, kno
         "seed": seed,
         "level": "model_checking",
         "coverage": {
+            "states": sum(results[o["name"]]["steps"] or 0 for o in obs) or 1,
+            "transitions": sum(results[o["name"]]["vccs"] or 0 for o in obs) or 1,
+            "traces_validated_against_impl": sum(native_ok.values()),
+            "states_transitions_meaning": "bounded model checking has no explicit state graph: states = SSA program steps symbolically "
+                                          "executed by CBMC (sum over harnesses), transitions = verification conditions generated; "
+                                          "traces_validated_against_impl = concrete native executions of the passing harnesses "
+                                          "(same sources and models, seeded values, env/kani_native) that ran to completion without "
+                                          "any assertion failing, i.e. agree with the solver's verdict",
             "evaluations": checks,
             "distinct_nontrivial": covers,
             "rule": "one evaluation = one CBMC property check (assertion, arithmetic-overflow, bounds, pointer, unwinding "
